@@ -3,7 +3,7 @@ C17 — executable model of the arithmetic of `thermosteam.Reaction` objects
 (thermosteam/reaction/_reaction.py): `__add__`, `__sub__`, `__iadd__`, `__isub__`,
 `__mul__`, `__truediv__`, `__imul__`, `__itruediv__`, `__neg__`, `copy`, `backwards`,
 the `basis` setter (`set_reaction_basis`), `ReactionItem` (shares the parent set's `X`
-array and stoichiometry row), `ReactionSet.__init__` (shares the stoichiometry arrays of
+array and stoichiometry row), `ReactionSet.__init__` (copies the stoichiometry arrays of
 the reactions it is built from), `ParallelReaction.reduce`.
 
 Core Lean only.  The scalar type is a parameter (`Rat` in the driver, any ordered field in
@@ -17,10 +17,11 @@ the theorems).  Python object identity is modelled by ids into an explicit store
 "allocates" = appends; "mutates in place" = overwrites an existing slot; "rebinds" =
 changes an id held by an object.  Nothing is ever removed, so ids are stable.
 
-The model is written to the REPAIRED behaviour of five defects (fixes_proposed/C17-1..5):
-`__isub__` subtracts, `backwards()` sets the new reactant on the copy, `__sub__` returns a
-copy when there is nothing to subtract, `backwards` works for phase-tagged reactions, and
-`ReactionItem.copy` does not raise.
+The model is written to the REPAIRED behaviour of the defects since fixed in /repo
+(fixes_proposed/C17-1..6 and commit 8900795): `__isub__` subtracts, `backwards()` sets the new reactant on
+the copy, `__sub__` returns a copy when there is nothing to subtract, `backwards` works for phase-tagged
+reactions, `ReactionItem.copy` does not raise, `ReactionSet.copy` and `ReactionSet.__init__` give the set its own
+stoichiometry and conversion arrays.
 -/
 namespace ThermoVerif.ReactionAlgebra
 
@@ -292,12 +293,13 @@ inductive Op (α : Type)
   | slice (s : Nat) (i : Nat) (j : Nat)           -- `set[i:j]`
   | item (s : Nat) (i : Nat)
   | setSetX (s : Nat) (i : Nat) (x : α)
+  | setSetXAll (s : Nat) (xs : List α)            -- `set.X = xs` (whole-array assignment: `self._X[:] = xs`)
   | reduce (s : Nat) (order : List Nat)
   | reset (a : Nat) (p : Nat)                     -- `a.reset_chemicals(package p)`
 
 /-- the in-place forms (`+= -= *= /=`, the `X` and `basis` setters, writing the set's `X`) -/
 def Op.inPlace {α : Type} : Op α → Bool
-  | .iadd .. | .isub .. | .imul .. | .idiv .. | .setBasis .. | .setX .. | .setSetX .. | .reset .. => true
+  | .iadd .. | .isub .. | .imul .. | .idiv .. | .setBasis .. | .setX .. | .setSetX .. | .setSetXAll .. | .reset .. => true
   | _ => false
 
 section StoreOps
@@ -483,7 +485,8 @@ def Store.rxns? (s : Store α) : List Nat → Except Err (List (Rxn α))
       | .error e => .error e
       | .ok rs => .ok (r :: rs)
 
-/-- `ParallelReaction([...])`: the set holds the members' own stoichiometry arrays and a fresh X array -/
+/-- `ParallelReaction([...])` / `SeriesReaction([...])`: the set holds copies of the members' stoichiometry
+arrays and a fresh X array (it shares nothing with the reactions it is built from) -/
 def Store.mkSetOp (s : Store α) (series : Bool) (ms : List Nat) : Except Err (Store α × Nat) :=
   match s.rxns? ms with
   | .error e => .error e
@@ -492,10 +495,13 @@ def Store.mkSetOp (s : Store α) (series : Bool) (ms : List Nat) : Except Err (S
     else if !allEq (rs.map (·.ph)) || !allEq (rs.map (·.pkg)) then .error .valueError   -- phases, chemicals
     else if !allEq (rs.map (·.basis)) then .error .valueError
     else
-      let t : RSet := { rows := rs.map (·.nu), xa := s.xarrs.length, ridxs := rs.map (·.ridx),
+      -- (repair 8900795) the set takes COPIES of the members' stoichiometry arrays, and a fresh X array
+      let t : RSet := { rows := (List.range rs.length).map (· + s.arrs.length), xa := s.xarrs.length,
+                        ridxs := rs.map (·.ridx),
                         basis := (rs.map (·.basis)).headD .mol, ph := (rs.map (·.ph)).headD 0,
                         xoff := 0, series := series, pkg := (rs.map (·.pkg)).headD 0 }
-      .ok ({ s with xarrs := s.xarrs ++ [rs.map (fun r => s.getX r.x)],
+      .ok ({ s with arrs := s.arrs ++ rs.map (fun r => s.arr r.nu),
+                    xarrs := s.xarrs ++ [rs.map (fun r => s.getX r.x)],
                     objs := s.objs ++ [.set t] }, s.objs.length)
 
 /-- `set[i]`: a `ReactionItem` that refers to the set's row array and to cell `i` of its X array -/
@@ -518,6 +524,23 @@ def Store.setSetXOp (s : Store α) (sid i : Nat) (x : α) : Except Err (Store α
     if i < t.rows.length then
       .ok ({ s with xarrs := s.xarrs.set t.xa ((s.xarrs.getD t.xa []).set (t.xoff + i) x) }, sid)
     else .error .indexError
+
+/-- `arr[off : off+len(xs)] = xs` -/
+def writeWindow (arr : List α) (off : Nat) (xs : List α) : List α :=
+  arr.zipIdx.map fun (p : α × Nat) =>
+    if off ≤ p.2 ∧ p.2 < off + xs.length then xs.getD (p.2 - off) 0 else p.1
+
+/-- `set.X = xs`: `if X is not self._X: self._X[:] = X` — the cells of the set's own X window are overwritten in
+place (numpy broadcasts a single value; any other length mismatch raises `ValueError`), the array object stays -/
+def Store.setSetXAllOp (s : Store α) (sid : Nat) (xs : List α) : Except Err (Store α × Nat) :=
+  match s.set? sid with
+  | .error e => .error e
+  | .ok t =>
+    if xs.length = t.rows.length then
+      .ok ({ s with xarrs := s.xarrs.set t.xa (writeWindow (s.xarrs.getD t.xa []) t.xoff xs) }, sid)
+    else if xs.length = 1 then
+      .ok ({ s with xarrs := s.xarrs.set t.xa (writeWindow (s.xarrs.getD t.xa []) t.xoff (List.replicate t.rows.length (xs.getD 0 0))) }, sid)
+    else .error .valueError
 
 /-- `set.reduce()`; `order` is the iteration order of `set(self._reactant_index)` (external parameter,
 hypothesis: it enumerates exactly the reactant keys, once each) -/
@@ -641,6 +664,7 @@ def Store.step (s : Store α) (op : Op α) : Except Err (Store α × Nat) :=
     | .reset a p => s.resetOp a p
     | .item sid i => s.itemOp sid i
     | .setSetX sid i x => s.setSetXOp sid i x
+    | .setSetXAll sid xs => s.setSetXAllOp sid xs
     | .reduce sid order => s.reduceOp sid order
     | _ => .error .badRef
 
